@@ -102,6 +102,49 @@ fn bvh_case_json(set: &BvhSet, imp: Value) -> Value {
     })
 }
 
+/// element with a recognisable Debug text, so that the shape of the (private) node type can be read from `{:?}` of the BVH
+struct Tagged(usize, AABB);
+impl std::fmt::Debug for Tagged {
+    fn fmt(&self, f: &mut std::fmt::Formatter<'_>) -> std::fmt::Result {
+        write!(f, "#{}#", self.0)
+    }
+}
+impl Bounded for Tagged {
+    fn aabb(&self) -> AABB {
+        self.1
+    }
+}
+
+/// pre-order fingerprint of the tree: -1 for an inner node, the element count for a leaf
+fn tree_shape(boxes: &[AABB], leaf: usize) -> Vec<i64> {
+    let bvh = BVH::build(boxes.iter().enumerate().map(|(i, b)| Tagged(i, *b)).collect::<Vec<_>>(), leaf);
+    let text = format!("{:?}", bvh);
+    let mut out: Vec<i64> = vec![];
+    let mut i = 0;
+    let bytes = text.as_bytes();
+    while i < bytes.len() {
+        if text[i..].starts_with("Node {") {
+            out.push(-1);
+            i += 6;
+        } else if text[i..].starts_with("Leaf {") {
+            out.push(0);
+            i += 6;
+        } else if bytes[i] == b'#' {
+            if let Some(j) = text[i + 1..].find('#') {
+                if let Some(last) = out.last_mut() {
+                    *last += 1;
+                }
+                i += j + 2;
+            } else {
+                i += 1;
+            }
+        } else {
+            i += 1;
+        }
+    }
+    out
+}
+
 /// child process: builds and queries set after set, one JSON line each; a set on which the build does
 /// not terminate simply never answers, and the parent kills this process
 fn bvh_worker(seed: u64, from: usize, to: usize) -> i32 {
@@ -110,11 +153,13 @@ fn bvh_worker(seed: u64, from: usize, to: usize) -> i32 {
     for k in from..to {
         let set = gen_bvh_set(seed, k);
         let (boxes, rays, leaf) = (set.boxes.clone(), set.rays.clone(), set.leaf);
+        let boxes2 = set.boxes.clone();
         let imp = match guarded(|| {
             let bvh = BVH::build(boxes, leaf);
-            Ok(rays.iter().map(|r| bvh.intersects(r).is_some()).collect::<Vec<bool>>())
+            let shape = tree_shape(&boxes2, leaf);
+            Ok((rays.iter().map(|r| bvh.intersects(r).is_some()).collect::<Vec<bool>>(), shape))
         }) {
-            Outcome::Ok(v) => json!({"outcome": "ok", "bvh": v}),
+            Outcome::Ok((v, shape)) => json!({"outcome": "ok", "bvh": v, "shape": shape}),
             Outcome::Err(e) => json!({"outcome": "err", "msg": e}),
             Outcome::Panic(p) => json!({"outcome": "panic", "msg": p}),
         };
